@@ -1,6 +1,8 @@
 package main
 
 import (
+	"path/filepath"
+	"io/ioutil"
 	"fmt"
 	"os"
 	"strings"
@@ -171,7 +173,52 @@ func distinctOutputs(g Dag, name string, counts map[string]int) int {
 	return 0
 }
 
+// history: a complete run, some outputs lost, run again — with a process that asks for several cores per task, so
+// that most of its tasks are skipped while a few have to run: Run returns, everything is there, nothing is left
+func rerunMultiCore(ctx *Ctx) {
+	ch := Chain{Inputs: []string{"a.txt", "b.txt", "c.txt", "d.txt", "e.txt", "f.txt"}, Levels: []Level{{Cores: 2}, {Cores: 1}}, Max: 4}
+	dir := newDir()
+	defer os.RemoveAll(dir)
+	for p, content := range ch.sources() {
+		ioutil.WriteFile(filepath.Join(dir, p), []byte(content), 0644)
+	}
+	r1 := RunWorkflow(ch.desc(), RunOpts{Dir: dir})
+	ctx.Res.Eval("re-run with skipped multi-core tasks", true, "rerun-multicore")
+	ctx.Res.Count("history=run,lose-outputs,run-again")
+	if r1.Exit != 0 {
+		ctx.Res.Disagree(Violation{What: "first run failed: " + firstLine(r1.Stderr), Witness: "rerun-multicore"})
+		return
+	}
+	for _, in := range []string{"e.txt", "f.txt"} {
+		for l := 0; l < 2; l++ {
+			p := ch.pathAt(in, l)
+			os.Remove(filepath.Join(dir, p))
+			os.Remove(filepath.Join(dir, p+".audit.json"))
+		}
+	}
+	for _, in := range ch.Inputs[:4] {
+		p := ch.pathAt(in, 1)
+		os.Remove(filepath.Join(dir, p))
+		os.Remove(filepath.Join(dir, p+".audit.json"))
+	}
+	r2 := RunWorkflow(ch.desc(), RunOpts{Dir: dir, Timeout: 20e9})
+	if r2.Exit != 0 || !r2.Returned {
+		ctx.Res.Violate(Violation{What: fmt.Sprintf("re-run over partially existing outputs of a process with 2 cores per task (4 slots, 4 of 6 tasks skipped) did not return normally: exit %d %s", r2.Exit, firstLine(r2.Stderr)), Class: "c05.hang", Witness: "rerun-multicore"})
+		return
+	}
+	for _, in := range ch.Inputs {
+		if _, ok := readFile(dir, ch.pathAt(in, 1)); !ok {
+			ctx.Res.Violate(Violation{What: "after the re-run returned " + ch.pathAt(in, 1) + " is missing", Class: "c05.early-return", Witness: "rerun-multicore"})
+			return
+		}
+	}
+	if l := leftovers(dir); len(l) > 0 {
+		ctx.Res.Violate(Violation{What: fmt.Sprintf("the re-run left %v behind", l), Class: "c05.early-return", Witness: "rerun-multicore"})
+	}
+}
+
 func checkC05(ctx *Ctx) {
+	defer rerunMultiCore(ctx)
 	ctx.Res.Rule = "random acyclic workflows as for C16 (several independent leaf branches, at most one process without out-ports, fan-out, multi-port processes, processes with two out-ports, FromStr / ParamSource parameter streams) with stream lengths 0-7 and SCIPIPE_BUFSIZE in {1,2,3,128} so that processes have more tasks than buffer slots; non-trivial = at least two tasks; distinct by (graph, bufsize). Checks: Run returns within the limit with exit 0; in the hook trace every task's release (logged before its Done signal) precedes the return of Run; the directory listing taken at the instant of return has no temp dir / FIFO and holds the outputs."
 	r := NewRng(ctx.Seed)
 	n := 30
